@@ -278,7 +278,9 @@ def main():
                     undecided.append((u, dict(r, reason='unwinding bound too small: %s at %s:%s' % (pr['id'], pr.get('file'), pr.get('line')))))
                 elif pr['status'] == 'FAILURE':
                     kf = next((k for k in open_kfs if finding_matches(k, prop, u['name'], pr)), None)
-                    if kf: known.append((kf, u, pr))
+                    if kf:
+                        known.append((kf, u, pr))
+                        pu['obligations'] -= 1; pu['known_finding_obligations'] = pu.get('known_finding_obligations', 0) + 1   # reported separately, neither discharged nor counted as proved
                     else: violations.append((u, r, pr))
                 elif pr['status'] == 'UNKNOWN' and any(x['status'] == 'FAILURE' and classify(u, x) != 'sentinel' for x in r['results']):
                     pass      # cbmc leaves obligations behind a failed one undecided; the failure itself is reported
@@ -350,6 +352,7 @@ def main():
                                     units=per_unit,
                                     functions_under_contract=sorted(set(f for u in units for f in u.get('under_contract', []))),
                                     known_findings=[k['what'] for k in open_kfs if k['id'] in seen_kf],
+                                    known_finding_obligations=sum(p.get('known_finding_obligations', 0) for p in per_unit),
                                     undecided=[dict(unit=u['name'], reason=(r.get('reason') or '')[:300]) for u, r in undecided],
                                     explanation=meta.get('explanation', '')),
                       assumptions=assumptions, wall_s=round(wall, 2), violations=len(violations))
